@@ -46,6 +46,9 @@ class FieldReader:
     def get(self, size, field, mask=None):
         if isinstance(size, (int, int)):
             value = self.src.read(size)
+            if len(value) != size:
+                raise ValueError(
+                    f'{self.name}: {field} needs {size} bytes but only {len(value)} are available')
             if self.log and self.log.isEnabledFor(logging.DEBUG):
                 self.log.debug('%s: read %s size=%d pos=%d value=0x%s', self.name, field,
                                size, self.src.tell(), value.encode('hex'))
